@@ -40,6 +40,14 @@ def run(tier, seed, replay=None):
             sc = rng.choice([1e-9, 1e-14, 1e-30, 1e10]); k_ = rng.randrange(len(t.cores))
             dist["scaled operand"] = dist.get("scaled operand", 0) + 1
             return torchtt.TT([c * (sc if j_ == k_ else 1.0) for j_, c in enumerate(t.cores)])
+        if rng.random() < 0.25:
+            # two scales in one operand: a rank-one component 1e-9 times smaller than the rest - a genuine part of the data for every eps below 1e-9
+            cs_ = []
+            for c in t.cores:
+                shp_ = (1,) + tuple(c.shape[1:-1]) + (1,)
+                cs_.append(torch.tensor(np.array([rng.gauss(0, 1) for _ in range(int(np.prod(shp_)))]).reshape(shp_), dtype=torch.float64).to(c.dtype))
+            dist["two-scale operand"] = dist.get("two-scale operand", 0) + 1
+            return t + 1e-9 * torchtt.TT(cs_)
         return t
     for i in range(n):
         kind = rng.choice(["reshape", "reshape", "reshape-op", "permute", "permute", "permute-op", "qtt", "qtt-roundtrip"])
@@ -198,6 +206,31 @@ def run(tier, seed, replay=None):
             qtt_cases.append("qtt_modes %s" % coqrun.nlist(N)); qtt_want.append(([int(v) for v in xq.to_qtt().N], {"op": "to_qtt-shape", "N": N}))
         except Exception as ex:
             V.fail("to_qtt raises %s on a shape whose modes are 1, 2, 3 or powers of two" % type(ex).__name__, {"N": N, "exc": str(ex)[:200]})
+    # to_qtt with the documented mode_size argument (2, 4, 8) on tensors and on square operators: exactly the requested mode sizes, the dense value is
+    # the dense reshape (rows and columns of an operator are folded separately)
+    rng_q = random.Random(seed + 41)
+    for j in range(12 if tier == "quick" else 120):
+        ms = [2, 4, 8, 4, 2, 8][j % 6]; op_ = j % 2 == 1
+        d_ = rng_q.choice([1, 2, 3]); Nq = [ms ** rng_q.choice([1, 2] if ms < 8 else [1, 1, 2]) for _ in range(d_)]
+        while int(np.prod(Nq)) ** (2 if op_ else 1) > 70000: Nq[Nq.index(max(Nq))] = ms
+        cplx_ = rng_q.random() < 0.3; dt_ = torch.complex128 if cplx_ else torch.float64
+        desc = {"op": "to_qtt(mode_size)", "operator": op_, "N": Nq, "mode_size": ms, "dtype": str(dt_)}
+        try:
+            xq = (solverkit.rand_ttm_float(rng_q, Nq, Nq, solverkit.ranks(rng_q, d_, 2), dt_, cplx=cplx_) if op_
+                  else solverkit.rand_tt_float(rng_q, Nq, solverkit.ranks(rng_q, d_, 3), dt_, cplx=cplx_))
+            snap_q = history.Snap(xq)
+            q_ = xq.to_qtt(1e-13, mode_size=ms)
+            K = int(round(math.log(int(np.prod(Nq)), ms)))
+            want_modes = [ms] * K
+            if (history.Mof(q_) if op_ else []) + [int(v) for v in q_.N] != (want_modes if op_ else []) + want_modes or bool(q_.is_ttm) != op_:
+                V.fail("to_qtt(mode_size=%d): the result does not have exactly the requested mode sizes" % ms, dict(desc, got_M=history.Mof(q_) if op_ else None, got_N=[int(v) for v in q_.N])); continue
+            ref_ = xq.full().reshape(want_modes * (2 if op_ else 1))
+            nrm_ = float(ref_.abs().pow(2).sum().sqrt()); err_ = float((q_.full() - ref_).abs().pow(2).sum().sqrt())
+            if err_ > 1e-10 * nrm_: V.fail("to_qtt(mode_size=%d): value differs from the dense reshape" % ms, dict(desc, rel_err=err_ / max(nrm_, 1e-300)))
+            if snap_q.diff(xq): V.fail("to_qtt(mode_size) modified its operand", desc)
+            dist["to_qtt mode_size=%d%s" % (ms, " operator" if op_ else "")] = dist.get("to_qtt mode_size=%d%s" % (ms, " operator" if op_ else ""), 0) + 1
+        except Exception as ex:
+            V.fail("to_qtt(mode_size=%d) raises %s" % (ms, type(ex).__name__), dict(desc, exc=str(ex)[:200]))
     if ok_make and qtt_cases:
         res = coqrun.eval_nat_lists("C10_q", "From TT Require Import Permute.", "", qtt_cases, shard=100)
         for got, (want, dsc) in zip(res, qtt_want):
